@@ -124,7 +124,7 @@ func genC05(g *Gen) *Plan {
 		for j := 0; j < 5; j++ {
 			sz := max(0, sizes[g.R.IntN(len(sizes))])
 			r := Reply{Status: pick(g, 200, 200, 200, 404, 201), Size: sz, Class: pick(g, "text", "text", "bin", "rep"),
-				Enc: pick(g, "", "", "gzip", "br", "lz4", "zst", "snz"), CType: pick(g, "text/plain", "application/json", "image/png", "text/html; charset=utf-8")}
+				Enc: pick(g, "", "", "gzip", "br", "lz4", "zst", "snz", "gzipm"), CType: pick(g, "text/plain", "application/json", "image/png", "text/html; charset=utf-8")}
 			if g.p(0.75) {
 				r.Header = [][2]string{{"Cache-Control", "max-age=" + strconv.Itoa(g.n(2, 8))}}
 			} else if g.p(0.5) {
@@ -154,6 +154,15 @@ func genC05(g *Gen) *Plan {
 		if method == "GET" && g.p(0.4) {
 			// the same URL is also requested with HEAD (a separate entry)
 			p.Scripts["HEAD "+hostA+" "+uri] = s
+		}
+		if method != "POST" && g.p(0.25) {
+			// ... and the same path lives on a second site served by the same cache, with answers of its own
+			var s2 []Reply
+			for j := 0; j < 5; j++ {
+				s2 = append(s2, Reply{Status: pick(g, 200, 203), Size: g.n(0, 3000), Class: "text", Enc: pick(g, "", "gzip", "br"), CType: "text/html; charset=utf-8",
+					Header: [][2]string{{"Cache-Control", "max-age=" + strconv.Itoa(g.n(2, 8))}}})
+			}
+			p.Scripts[method+" "+hostB+" "+uri] = s2
 		}
 	}
 	keys := sortedScriptKeys(p.Scripts)
